@@ -144,6 +144,8 @@ package linux
 //vc:  assign at "line = strings.TrimSpace(line)" appendSection = ite(strings.TrimSpace(arg0) == "[APPEND]", true, ite(len(strings.TrimSpace(arg0)) > 0 && strings.TrimSpace(arg0)[0] == 42, false, appendSection))
 //vc:  invariant[C18] 1 "for _, line := range lines" @appendFlagFollowsMarker appendRule == appendSection
 //vc:  assert[C18] at "ch.rules = append(ch.rules," @ruleCarriesAppendState arg1[0].append == appendSection
+// the device's answer to iptables-save frames the rules with comment lines ("# Generated by ...", "# Completed on ..."): they are skipped, never rejected
+//vc:  assert[C05] at "Unknown command" @commentLinesAccepted len(line) > 0 && line[0] != 35
 // a table or chain header that appears a second time (hand-written raw file)
 // must not silently replace the rules collected under the first one
 //vc:  assert[C18] at "tb[name] = cMap" @tableDefinedOnce !(name in tb) || tb[name] == nil
